@@ -42,7 +42,7 @@ MODELLED = [
     "Python dict (insertion-ordered, keyed by the elements' __eq__/__hash__), re, str.lower on ASCII; Problem.has_name and "
     "ProblemKind.has_hierarchical_typing are inputs of the model (their values are read from the real problem and cross-checked)",
 ]
-BUDGET_S = {"quick": 60, "thorough": 420}
+BUDGET_S = {"quick": 60, "thorough": 400}
 
 ACTION_CLS = ("InstantaneousAction", "DurativeAction")
 TRANS_CLS = ("Process", "Event")
@@ -301,7 +301,7 @@ def gen_anml_case(rng):
 
 
 def cases(rng, tier):
-    n = 450 if tier == "quick" else 12000
+    n = 450 if tier == "quick" else 40000
     for _ in range(n):
         r = rng.random()
         if r < 0.45:
@@ -638,7 +638,7 @@ def _check_pddl_maps(w, objs, items, flags, text):
             if it[0] in GLOBAL_CLS + TRANS_CLS and objs[i] in otn:
                 if it[0] == "_UserType" and it[1] == "object":
                     continue
-                if otn[objs[i]] not in toks:
+                if otn[objs[i]].lower() not in toks:
                     return f"the chosen name {otn[objs[i]]!r} of a {it[0]} does not occur in the written PDDL"
     return None
 
